@@ -1,7 +1,7 @@
 """C17 — Every access path agrees and index accounting never leaks."""
 from ._store import run_store
 
-THEOREMS = []
+THEOREMS = ['unretrievable_not_found', 'self_findable_by_id', 'empty_means_zero', 'tag_entries_of_live']
 
 
 def run():
